@@ -1,6 +1,7 @@
 package core
 
 import (
+	"bytes"
 	"encoding/binary"
 	"fmt"
 	"testing"
@@ -229,6 +230,96 @@ func TestC06Session(t *testing.T) {
 		vt.Journal("C06", c)
 		if fails := runC06(c, protos); len(fails) > 0 {
 			t.Fatalf("C06 violated (%d findings), first: %s\ncase: %+v", len(fails), fails[0], c)
+		}
+	})
+}
+
+// TestC06WebsocketControl: hostile websocket frames below the message layer. A control frame
+// (ping / pong / close) announcing more than the 125 bytes the protocol allows is not buffered:
+// whatever the peer does with it (ignore the excess, drop the connection), it neither echoes nor
+// keeps the excess, and it stays usable or is cleanly disconnected.
+func TestC06WebsocketControl(t *testing.T) {
+	rec := vt.NewRec(t, "C06", "ws-control", "a raw websocket client (real handshake, frames written by the harness) sends a serving peer one control frame (ping / pong) or an unknown-opcode frame whose payload is 0 B .. 1 MiB (announced length = sent length, or announced 64 MiB with 1 KiB sent and then EOF), under a 4 KiB .. 64 KiB message size limit, optionally after a valid CALL; oracle: the server writes at most 125 payload bytes plus framing in response to the frame (it cannot echo what it did not buffer), the session is still functional (a CALL is answered) or cleanly disconnected (close notification, unlisted), a control session keeps working; non-trivial = payload > 125 bytes; distinct by case")
+	subs := vt.WsSubProtos()
+	rapid.Check(t, func(t *rapid.T) {
+		vt.Init()
+		newLib()
+		sub := subs[0] // json sub-protocol: the harness packs its own CALL frames with it
+		opcode := rapid.SampledFrom([]byte{0x9, 0x9, 0xA, 0xB, 0x3}).Draw(t, "opcode")
+		size := rapid.SampledFrom([]int{0, 1, 125, 126, 4096, 70000, 1 << 20}).Draw(t, "size")
+		short := rapid.IntRange(0, 4).Draw(t, "short") == 0 // announce 64 MiB, send 1 KiB, then EOF
+		limit := rapid.SampledFrom([]uint32{4096, 65536}).Draw(t, "limit")
+		callFirst := rapid.Bool().Draw(t, "callfirst")
+		rec.Case(fmt.Sprintf("%x|%d|%v|%d|%v", opcode, size, short, limit, callFirst), size > 125 || short, fmt.Sprintf("opcode=%x", opcode), fmt.Sprintf("short=%v", short))
+		if rec.WantSample() && (size > 125 || short) {
+			rec.Sample(map[string]interface{}{"opcode": opcode, "payload_bytes": size, "announce_64MiB_send_1KiB": short, "limit": limit, "call_first": callFirst})
+		}
+		socket.SetMessageSizeLimit(limit)
+		defer socket.SetMessageSizeLimit(0)
+		w := vt.NewWorld()
+		defer w.Close()
+		srv, other := w.Peer(erpc.PeerConfig{}), w.Peer(erpc.PeerConfig{})
+		callRoute, _ := registerLib(srv)
+		ctl := w.Connect(other, srv, vt.StreamProtos()[0], nil)
+		if ctl.A == nil {
+			t.Fatalf("control connect failed")
+		}
+		raw, err := w.ConnectRawWS(srv, sub)
+		if err != nil {
+			t.Fatalf("websocket handshake: %v", err)
+		}
+		call := func(seq int32) bool {
+			wrw := &vt.RW{}
+			m := vt.Msg{Seq: seq, Mtype: erpc.TypeCall, Method: callRoute, Codec: 'j', Body: []byte(fmt.Sprintf(`{"Rid":"ws%d","Act":"ret","Val":"v"}`, seq))}
+			if err := sub.Fn(wrw).Pack(m.Build()); err != nil {
+				t.Fatalf("harness pack: %v", err)
+			}
+			before := raw.Pair.Written(vt.BtoA)
+			if err := raw.WriteFrame(0x1, len(wrw.Written()), wrw.Written()); err != nil {
+				return false
+			}
+			return vt.WaitUntilFor(2*time.Second, func() bool { return raw.Pair.Written(vt.BtoA) > before })
+		}
+		go func() { // drain what the server writes
+			buf := make([]byte, 4096)
+			for {
+				if _, err := raw.Pair.A.Read(buf); err != nil {
+					return
+				}
+			}
+		}()
+		if callFirst && !call(1) {
+			t.Fatalf("C06 harness: a valid CALL over the raw websocket connection was not answered")
+		}
+		payload := bytes.Repeat([]byte{'P'}, size)
+		announce := size
+		if short {
+			announce, payload = 64<<20, payload[:min(len(payload), 1024)]
+		}
+		before := raw.Pair.Written(vt.BtoA)
+		raw.WriteFrame(opcode, announce, payload)
+		if short {
+			raw.Pair.A.Close()
+		}
+		time.Sleep(2 * time.Millisecond)
+		vt.WaitUntilFor(500*time.Millisecond, func() bool { return raw.Pair.Delivered(vt.AtoB) == raw.Pair.Written(vt.AtoB) })
+		time.Sleep(time.Millisecond)
+		if echoed := raw.Pair.Written(vt.BtoA) - before; echoed > 125+16 {
+			t.Fatalf("C06 violated: in response to a websocket control frame (opcode %#x) with %d payload bytes the server wrote %d bytes: it buffered and echoed more than the 125 bytes a control frame may carry (message size limit %d)", opcode, len(payload), echoed, limit)
+		}
+		// still functional, or cleanly gone
+		alive := !short && raw.B.Health() && call(2)
+		if !alive {
+			if !vt.WaitClosed(raw.B.CloseNotify()) {
+				t.Fatalf("C06 violated: after the frame the websocket session neither answers a CALL nor is it disconnected; %s", vt.Hang("its close notification"))
+			}
+			if _, ok := srv.GetSession(raw.B.ID()); ok {
+				t.Fatalf("C06 violated: the disconnected websocket session is still listed")
+			}
+		}
+		res := new(LibRes)
+		if cmd := ctl.A.Call(callRoute, &LibArg{Rid: "ctl", Act: "ret", Val: "ok"}, res); !cmd.StatusOK() || res.Val != "ok" {
+			t.Fatalf("C06 violated: the control session stopped working: %v", cmd.Status())
 		}
 	})
 }
